@@ -377,7 +377,9 @@ theorem resets_eq (cfg : Config) (cur : Nat) (votes : List Eth1Data) (slashings 
 
 /-- `historical_eq`: `common.UpdateHistoricalRoots` (hash of the two vector roots, "emulating HistoricalBatch") and
 `capella.UpdateHistoricalSummaries`, triggered by `nextEpoch % SlotToEpoch(SLOTS_PER_HISTORICAL_ROOT) == 0`, equal
-`process_historical_roots_update` (`hash_tree_root(HistoricalBatch)`) and `process_historical_summaries_update`. -/
+`process_historical_roots_update` (`hash_tree_root(HistoricalBatch)`) and `process_historical_summaries_update`. The
+period is the spec's literal `SLOTS_PER_HISTORICAL_ROOT // SLOTS_PER_EPOCH` (floor division, `historical_batch_due`):
+no divisibility of the two constants is assumed. -/
 theorem historical_eq (cfg : Config) (cur : Nat) (block_roots state_roots historical_roots : List Bytes)
     (summaries : List HistoricalSummary) :
     Impl.processHistoricalRootsUpdate cfg (cur + 1) block_roots state_roots historical_roots =
